@@ -207,6 +207,11 @@ func c13(c *Check) {
 	}
 	sort.Slice(expFns, func(i, j int) bool { return funcName(expFns[i]) < funcName(expFns[j]) })
 	exportLoopsComplete(c, "C13/export-loops-complete", expFns)
+	c.Rule("C13/rvesting-parameters-exported-as-stored", "the reward-vesting module exports exactly the parameters it reads from its store (no canonicalising constructor in between: sdk.NewCoins would drop zero amounts and re-sort)", 2)
+	c.Spec("C13/rvesting-parameters-exported-as-stored", Macros{}, FnSpec{Fn: "x/rvesting/keeper.Keeper.ExportGenesis",
+		Returns: []Ret{{Label: "genesis of the stored params", Index: 0, Want: []string{"rvesting/types.NewGenesisState(rvesting/keeper.(Keeper).GetParams($0, $1))"}}}})
+	c.Spec("C13/rvesting-parameters-exported-as-stored", Macros{}, FnSpec{Fn: "x/rvesting/types.NewGenesisState",
+		Returns: []Ret{{Label: "params verbatim", Index: 0, Want: []string{"rvesting/types.GenesisState{Params: $0, From: \"\", InitReward: cosmos-sdk/types.NewCoins(nil)}"}}}})
 	c.Rule("C13/validation-holds-for-updated-clients", "GenesisState.Validate runs ClientState.Validate on every exported client; a condition it places on a field that header updates overwrite must be one the update path enforces on the new value (audited pairs below) — otherwise a client that was legitimately updated no longer passes the module's own genesis validation", 3)
 	validationVsUpdates(c, "C13/validation-holds-for-updated-clients")
 
